@@ -3,7 +3,7 @@ from common import COMMON_TB
 CFG = {
     "technique": "Lean 4 refinement proof: after every chain-consistent history TxDetails / RangeTransactions of the wtxmgr model answer the sentences of C13 read on the Ledger specification (theorems) + store-level theorems on arbitrary stores + differential run: model = Ledger specification (details, ranges) = real wtxmgr.Store after every event",
     "level_text": "After every chain-consistent history of events (reorgs included): C13_once - TxDetails(h) succeeds, reports a record iff a known transaction has hash h, and the record is that transaction under its current block (height, hash, time) or as unconfirmed; C13_credit - it lists a credit for output i iff (t,i) is credited, once, with the output value, the change flag and spent <-> some known transaction spends it; C13_debit - a debit for input j iff the spent output is a credited output of a known transaction, once, with its value; C13_range - RangeTransactions(begin,end) reports the ledger batches in order (unconfirmed batch first/last by the -1 rule, blocks ascending/descending, each block batch = the block transactions in the order learned); C13_removed - when no known transaction has hash h (never arrived / abandoned / conflicted by a confirmation / depending on a disconnected coinbase) TxDetails says none and no range batch holds it. Store-level theorems on arbitrary stores kept.",
-    "level_note": "No _partial left for C13. Records inside one TxDetails answer are compared with the ledger as duplicate-free sets (store: bucket order; ledger: index order) and the unconfirmed batch of a range query up to order (store: hash order; ledger: arrival order); proving the bucket order would need sortedness invariants of the association lists, which the refinement does not carry. Zero-value credits (former finding F6) fixed in /repo 7fa9939.",
+    "level_note": "No _partial left for C13: details_refines / range_refines (Lemmas/RefDetails.lean, RefRange.lean) on top of the refinement store -> Ledger that is proved for every event (good_history, see C01). What remains order-dependent: records inside one TxDetails answer are compared with the ledger as duplicate-free sets (store: bucket order; ledger: index order) and the unconfirmed batch of a range query up to order (store: hash order; ledger: arrival order), while the order of the batches and of the transactions inside a block batch IS proved; proving the bucket order would need sortedness invariants of the association lists, which the refinement does not carry. Zero-value credits (former finding F6) fixed in /repo 7fa9939.",
     "lean_props": ["BtcwVerif.Props.C13"],
     "engines": ["txstore"],
     "trusted_base": COMMON_TB + [
